@@ -2724,7 +2724,9 @@ impl Lexer<'_> {
         // of lexing possibly escaped text in a string expression
         let mut lit_start_idx = self.buffer.next_string_literal_start();
         let mut lit_end_idx = lit_start_idx;
-        let mut last_lit_end_byte_offset = self.cur_byte_offset();
+        // The first literal section starts at the token start, not at the cursor:
+        // the dispatcher may have already consumed the leading char(s) of this token
+        let mut last_lit_end_byte_offset = self.cur_token_byte_offset;
 
         while let Some(c) = self.cursor.peek() {
             match c {
@@ -2782,20 +2784,25 @@ impl Lexer<'_> {
                         // Quoted char
 
                         // First, store the literal section before the escape percent
-                        let (new_start, new_end) =
+                        let (new_start, _) =
                             self.add_string_literal_from_src(last_lit_end_byte_offset, None);
                         lit_start_idx = min(lit_start_idx, new_start);
-                        lit_end_idx = new_end;
 
                         // Now advance the cursor past the percent
                         self.cursor.advance();
 
-                        // And update the last byte offset - this will ensure that the
-                        // following escaped char will be included in the next literal section
+                        // The quoted char starts here
                         last_lit_end_byte_offset = self.cur_byte_offset();
 
-                        // Finally, advance the cursor past the quoted char
+                        // Advance the cursor past the quoted char and store it right away:
+                        // the stored literal is then never empty once a quoted char has been
+                        // seen, which is how `resolve_string_literal_payload` decides whether
+                        // a payload is needed at all (`%str(%%)` must get the payload `%`)
                         self.cursor.advance();
+                        let (_, new_end) =
+                            self.add_string_literal_from_src(last_lit_end_byte_offset, None);
+                        lit_end_idx = new_end;
+                        last_lit_end_byte_offset = self.cur_byte_offset();
                         continue;
                     }
 
